@@ -14,10 +14,10 @@ Definition gen_flags (n : nat) (tim : string -> option (list Z))
                      (nums : string -> option (option Q)) (strs : string -> option string)
                      (prog : list astmt) (skel : list sstep) (names : list string)
                      (st0 : store) (init : flag) : option (list flag) :=
-  let en0 := {| e_arr := fun _ => None; e_num := nums; e_str := strs; e_size := n |} in
+  let en0 := {| e_arr := fun _ => None; e_num := nums; e_str := strs; e_bool := (fun _ => None); e_size := n |} in
   match run_prog n tim en0 prog st0 with
   | Some st =>
-      Some (run_steps {| e_arr := restrict names (store_arr st); e_num := nums; e_str := strs; e_size := n |}
+      Some (run_steps {| e_arr := restrict names (store_arr st); e_num := nums; e_str := strs; e_bool := (fun _ => None); e_size := n |}
                       skel (all_flags n init))
   | None => None                 (* numpy would have raised: unknown name / lengths that do not fit *)
   end.
@@ -26,11 +26,11 @@ Definition gen_flags (n : nat) (tim : string -> option (list Z))
 
 Definition env_eq (a b : env) : Prop :=
   (forall s, e_arr a s = e_arr b s) /\ (forall s, e_num a s = e_num b s) /\
-  (forall s, e_str a s = e_str b s) /\ e_size a = e_size b.
+  (forall s, e_str a s = e_str b s) /\ (forall s, e_bool a s = e_bool b s) /\ e_size a = e_size b.
 
 Lemma eval_num_ext a b : env_eq a b -> forall e, eval_num a e = eval_num b e.
 Proof.
-  intros (_ & Hn & _ & _) e. unfold eval_num.
+  intros (_ & Hn & _) e. unfold eval_num.
   destruct e; try reflexivity; match goal with |- context [path ?p] => destruct (path p) end; try apply Hn; reflexivity.
 Qed.
 
@@ -40,9 +40,10 @@ Proof. intros (Ha & _) e i. destruct e; cbn; try reflexivity. rewrite Ha. reflex
 Lemma eval_b_ext a b : env_eq a b -> forall e i, eval_b a e i = eval_b b e i.
 Proof.
   intros H. pose proof (eval_num_ext a b H) as Hn. pose proof (eval_arr_ext a b H) as Hr.
-  destruct H as (Ha & _ & _ & Hs).
+  destruct H as (Ha & _ & _ & Hbo & Hs).
   induction e as [s|e IH f|q| |s|op e1 IH1 e2 IH2|op e1 IH1 e2 IH2|e IH|f e IH|fr e IH]; intros i; cbn [eval_b];
     try reflexivity.
+  - rewrite Hbo. reflexivity.
   - destruct e; try reflexivity. rewrite Ha. reflexivity.
   - rewrite Hr, Hn. rewrite !IH1, !IH2. reflexivity.
   - rewrite IH1, IH2. reflexivity.
@@ -53,10 +54,11 @@ Qed.
 
 Lemma eval_g_ext a b : env_eq a b -> forall e, eval_g a e = eval_g b e.
 Proof.
-  intros H. pose proof (eval_num_ext a b H) as Hn. pose proof (eval_b_ext a b H) as Hb.
-  destruct H as (_ & _ & Hst & Hs).
+  intros H. pose proof (eval_num_ext a b H) as Hn. pose proof (eval_b_ext a b H) as Hb. pose proof H as H0.
+  destruct H as (_ & _ & Hst & _ & Hs).
   induction e as [s|e IH f|q| |s|op e1 IH1 e2 IH2|op e1 IH1 e2 IH2|e IH|f e IH|fr e IH]; cbn [eval_g];
     try reflexivity.
+  - destruct H0 as (_ & Hnum & _). rewrite Hnum. reflexivity.
   - rewrite !Hn, Hs. destruct e1; try reflexivity. destruct e2; try reflexivity. rewrite Hst. reflexivity.
   - rewrite IH1, IH2. reflexivity.
   - rewrite IH. reflexivity.
@@ -70,7 +72,7 @@ Proof.
   intros H steps. pose proof (eval_b_ext a b H) as Hb. pose proof (eval_g_ext a b H) as Hg.
   assert (Hgs : forall gs, guards_hold a gs = guards_hold b gs).
   { intros gs. unfold guards_hold. induction gs as [|g gs IH]; cbn; [reflexivity|]. rewrite Hg, IH. reflexivity. }
-  destruct H as (_ & _ & _ & Hs).
+  destruct H as (_ & _ & _ & _ & Hs).
   unfold run_steps. induction steps as [|s steps IH]; intros init; cbn [fold_left]; [reflexivity|].
   rewrite <- IH. f_equal. destruct s; cbn [run_step]; rewrite Hgs, Hs; try reflexivity.
   - destruct (guards_hold b guards); [|reflexivity]. f_equal. apply tab_ext. intros; apply Hb.
